@@ -30,7 +30,9 @@ enum class bson_errc
     expected_bson_document,
     invalid_regex_string,
     size_mismatch,
-    unknown_type
+    unknown_type,
+    invalid_boolean_value,
+    string_not_null_terminated
 };
 
 class bson_error_category_impl
@@ -73,6 +75,10 @@ public:
                 return "Invalid regex string";
             case bson_errc::size_mismatch:
                 return "Document or array size doesn't match bytes read";
+            case bson_errc::invalid_boolean_value:
+                return "A boolean value must be 0x00 or 0x01";
+            case bson_errc::string_not_null_terminated:
+                return "A string must end with a 0x00 byte";
             default:
                 return "Unknown BSON parser error";
         }
